@@ -167,6 +167,44 @@ class A(Adapter):
     def end_cause(self, ps, action, s, ts, env, cfg):
         return "solved" if solved(np.asarray(s.puzzle)) else None
 
+    # ---- reach probes ---------------------------------------------------------------------------
+    def events(self, ps, action, s, ts, env, cfg):
+        p = np.asarray(s.puzzle)
+        n = p.shape[0]
+        if ps is None:
+            ev = ["reset_solved"] if solved(p) else []
+            if blank_of(s) == (n - 1, n - 1):
+                ev.append("reset_blank_in_goal_cell")
+            if correct(p) == 0:
+                ev.append("reset_no_tile_in_place")
+            return ev
+        a = int(action)
+        pp = np.asarray(ps.puzzle)
+        r, c = blank_of(ps)
+        was_solved = solved(pp)
+        if not self.legal(ps, env)[a]:
+            ev = ["move_blocked_by_border"]
+            if r in (0, n - 1) and c in (0, n - 1):
+                ev.append("blocked_move_from_corner")
+            if was_solved:
+                ev.append("blocked_move_on_solved_puzzle")
+            return ev
+        ev = ["tile_moved"]
+        d = correct(p) - correct(pp)
+        if d > 0:
+            ev.append("tile_moved_into_place")
+        elif d < 0:
+            ev.append("tile_moved_out_of_place")
+        if abs(d) == 2:
+            ev.append("correct_count_changed_by_2")  # the moved tile and the empty tile change status together
+        if was_solved:
+            ev.append("solved_puzzle_unsolved_by_move")
+        if solved(p):
+            ev.append("ended_solved")
+            if int(s.step_count) >= self.time_limit(env, cfg):
+                ev.append("solved_at_time_limit")
+        return ev
+
     # ---- C12 -------------------------------------------------------------------------------------
     def observe(self, s, obs, env, cfg):
         sp, op = np.asarray(s.puzzle), np.asarray(obs.puzzle)
